@@ -3,6 +3,8 @@ mod checks;
 mod common;
 mod enginesim;
 mod linesim;
+mod streamsim;
+mod tablesim;
 mod sched;
 mod uciref;
 mod pool;
